@@ -693,6 +693,11 @@ func (x *Exec) builtin(name string, call *ssa.CallCommon, args []Value, st *Stat
 			for _, o := range x.mapLens {
 				if o.pres.S.String() == eff.S.String() {
 					x.assume(b.Implies(pc, b.Implies(b.Eq(o.pres, eff), b.Eq(o.n, n))))
+					// finite sets: a subset of equal size is the whole set
+					k1, k2 := b.BoundVar("fs", ks), b.BoundVar("ft", ks)
+					sub1 := b.Forall([]*Term{k1}, b.Implies(b.Select(o.pres, k1), b.Select(eff, k1)))
+					sub2 := b.Forall([]*Term{k2}, b.Implies(b.Select(eff, k2), b.Select(o.pres, k2)))
+					x.assume(b.Implies(pc, b.Implies(b.And(b.Eq(o.n, n), b.Or(sub1, sub2)), b.Eq(o.pres, eff))))
 				}
 			}
 			x.mapLens = append(x.mapLens, mapLen{n, eff})
